@@ -85,7 +85,7 @@ THOROUGH = QUICK + ['sc222', 'sc221v', 'fcc211', 'hcp211', 'hcp221']
 
 def sections(tier):
     S = run.Section
-    return [S('agree:' + c, agree(c), budget_s=170 if tier == 'quick' else 3000, replayer='agree', config=c, maxpaths=5000,
+    return [S('agree:' + c, agree(c), budget_s=170 if tier == 'quick' else 1200, replayer='agree', config=c, maxpaths=5000,
               timeout_ms=10000) for c in (QUICK if tier == 'quick' else THOROUGH)]
 
 
